@@ -126,6 +126,11 @@ def build(case):
             s.spike_clusters = np.where(np.isin(s.clusters, lo), s.clusters.max() + 1, s.clusters).astype(s.clusters.dtype)
         if case['seed'][2] % 5 == 3 and p % 2 == 0:
             s.notes['params_style'] = 'upper'           # N_CHANNELS_DAT = ... in the params.py of the first, third ... probe
+        if case['seed'][2] % 9 == 7 and s.wm is not None:
+            # recent sorters ship a multiple of the identity as whitening matrix, another multiple for every probe
+            s.wm = np.eye(s.wm.shape[0]) * [1.0, 0.005, 0.25, 3.0][p % 4]
+            if s.wmi_file is not None:
+                s.wmi_file = np.linalg.inv(s.wm)
         if rng.random() < 0.25:
             s.notes['fortran'] = 'all'            # column-major .npy files (MATLAB exporters), in any probe incl. the first
         if p == nonfinite:
@@ -241,6 +246,25 @@ def _run(case, ctx, d, which):
         if r0.ok:
             call(r0.value.close)
         before = [snapshot(sd) for sd in subdirs_s]
+    if case['seed'][2] % 7 == 4 and which != 'C14x':
+        # history: the output directory holds an earlier merge of the same probes made when their spike times were stored
+        # as 32-bit integers and their amplitudes in single precision (same counts, narrower types)
+        saved_ = {}
+        for sd_, s_ in zip(subdirs_s, specs):
+            for fn_, conv in (('spike_times.npy', lambda a: (a.astype(np.int64) % 2 ** 30).astype(np.int32)), ('amplitudes.npy', lambda a: a.astype(np.float32))):
+                fp_ = os.path.join(sd_, fn_)
+                if os.path.exists(fp_) and fp_ not in saved_:
+                    saved_[fp_] = open(fp_, 'rb').read()
+                    arr_ = np.load(fp_)
+                    np.save(fp_, np.sort(conv(arr_), axis=0) if fn_ == 'spike_times.npy' else conv(arr_))
+        ctx.cell('output_dir_holds_narrow_typed_merge')
+        r0 = call(lambda: Merger(subdirs, out).merge())
+        if r0.ok:
+            call(r0.value.close)
+        for fp_, data_ in saved_.items():
+            with open(fp_, 'wb') as f_:
+                f_.write(data_)
+        before = [snapshot(sd) for sd in subdirs_s]
     if k >= 2 and case['seed'][2] % 7 == 6:
         # history: the output directory already holds a merge of the same probes in the opposite order (same total
         # shapes, other block layout); the merge in the given order is the one judged
@@ -279,6 +303,12 @@ def _run(case, ctx, d, which):
         sv = specs[pv]
         sv.spike_samples = (sv.spike_samples.astype(np.int64) + 5).astype(sv.spike_samples.dtype)
         np.save(os.path.join(subdirs_s[pv], sv._name('spike_times.npy') if sv.names == 'ks' else 'spike_times.npy'), sv._vec(sv.spike_samples.astype(sv.dtype_times)))
+        # ... its geometry is re-measured (coordinates change by a few parts per million) and its whitening matrix re-estimated
+        sv.positions = sv.positions * (1 + 4e-6)
+        np.save(os.path.join(subdirs_s[pv], 'channel_positions.npy'), sv.positions)
+        if sv.wm is not None and sv.wmi_file is None:
+            sv.wm = sv.wm * (1 + 3e-6) + np.eye(sv.wm.shape[0]) * 2e-6
+            np.save(os.path.join(subdirs_s[pv], 'whitening_mat.npy'), sv.wm)
         ctx.cell('times_shifted_between_merges')
         f0 = dict(f0, remerged_after_shift=True)
         times_l = [s_.spike_samples.astype(np.int64) for s_ in specs]
